@@ -8,6 +8,7 @@ let run_job (job : Sx.t) : string =
   | "literal" -> Jlit.job_literal job
   | "sem" -> Jprog.job_sem job
   | "scan" -> Jfront.job_scan job
+  | "pexpr" -> Jfront.job_pexpr job
   | "pretty" -> Jfront.job_pretty job
   | "consts" -> Jconsts.job_consts job
   | "sortnet" -> Jsort.job_sortnet job
